@@ -283,15 +283,16 @@ func (s *Sink) Key() string { return fmt.Sprintf("%s#%s%d", core.FnName(s.Fn), s
 type TLG struct {
 	c *Ctx
 
-	ret        map[*ssa.Function][]AV
-	retOK      map[*ssa.Function][]AV // results on the exits whose error result may be nil
-	lenParams  map[any][]int
-	paramPost  map[*ssa.Function][]AV // what is known of each integer parameter when the function returns normally
-	paramT     map[*ssa.Function][]AV
-	fieldT     map[*types.Var]string // integer field -> source description
-	fieldElemT map[*types.Var]string
-	changed    bool
-	round      int
+	ret         map[*ssa.Function][]AV
+	retOK       map[*ssa.Function][]AV // results on the exits whose error result may be nil
+	lenParams   map[any][]int
+	paramPost   map[*ssa.Function][]AV // what is known of each integer parameter when the function returns normally
+	paramPostOK map[*ssa.Function][]AV // ... when it returns with a possibly-nil error
+	paramT      map[*ssa.Function][]AV
+	fieldT      map[*types.Var]string // integer field -> source description
+	fieldElemT  map[*types.Var]string
+	changed     bool
+	round       int
 
 	collect bool
 	probe   func(in ssa.Instruction, eval func(ssa.Value) AV, locAV func(key string) (AV, bool))
@@ -307,7 +308,7 @@ func (c *Ctx) TLG() *TLG {
 	if c.tlg != nil {
 		return c.tlg
 	}
-	t := &TLG{c: c, ret: map[*ssa.Function][]AV{}, retOK: map[*ssa.Function][]AV{}, paramPost: map[*ssa.Function][]AV{}, paramT: map[*ssa.Function][]AV{}, fieldT: map[*types.Var]string{},
+	t := &TLG{c: c, ret: map[*ssa.Function][]AV{}, retOK: map[*ssa.Function][]AV{}, paramPost: map[*ssa.Function][]AV{}, paramPostOK: map[*ssa.Function][]AV{}, paramT: map[*ssa.Function][]AV{}, fieldT: map[*types.Var]string{},
 		fieldElemT: map[*types.Var]string{}, Sources: map[string]int{}, pure: map[*ssa.Function]bool{}}
 	for _, f := range c.Funcs() {
 		if inPkgs(f, "data/...", "level/block", "level/biome", "level/item", "level/entity") {
@@ -398,19 +399,21 @@ func (t *TLG) Probe(fn *ssa.Function, visit func(in ssa.Instruction, eval func(s
 // ---------------------------------------------------------------- per function
 
 type fnAn struct {
-	t     *TLG
-	fn    *ssa.Function
-	sizes types.Sizes
-	in    map[*ssa.BasicBlock]tstate
-	visit map[*ssa.BasicBlock]int
-	ords  map[string]int
-	sinks map[ssa.Instruction]map[string]*Sink // dedupe across re-visits: keyed by instr+kind
-	retAV []AV
-	retOK []AV
-	post  []AV
-	nRet  int
-	feas  map[*ssa.BasicBlock]map[int]bool // predecessor edges over which a state has arrived
-	vals  map[string]ssa.Value // name -> value for V: entries
+	t      *TLG
+	fn     *ssa.Function
+	sizes  types.Sizes
+	in     map[*ssa.BasicBlock]tstate
+	visit  map[*ssa.BasicBlock]int
+	ords   map[string]int
+	sinks  map[ssa.Instruction]map[string]*Sink // dedupe across re-visits: keyed by instr+kind
+	retAV  []AV
+	retOK  []AV
+	post   []AV
+	nRet   int
+	postOK []AV
+	nRetOK int
+	feas   map[*ssa.BasicBlock]map[int]bool // predecessor edges over which a state has arrived
+	vals   map[string]ssa.Value             // name -> value for V: entries
 	// per block transient
 	storeCtr int
 	events   []killEvent
@@ -611,22 +614,27 @@ func (t *TLG) analyze(fn *ssa.Function) {
 	}
 	mergeSum(t.ret, a.retAV)
 	mergeSum(t.retOK, a.retOK)
-	if a.post != nil {
+	mergePost := func(m map[*ssa.Function][]AV, cur []AV) {
+		if cur == nil {
+			return
+		}
 		// (symbolic bounds are kept: they are translated into the caller's names at the call site)
-		old, ok := t.paramPost[fn]
-		if !ok || len(old) != len(a.post) {
-			t.paramPost[fn] = a.post
+		old, ok := m[fn]
+		if !ok || len(old) != len(cur) {
+			m[fn] = cur
 			t.changed = true
-		} else {
-			for i := range old {
-				j := joinAV(old[i], a.post[i])
-				if !j.eq(old[i]) {
-					old[i] = j
-					t.changed = true
-				}
+			return
+		}
+		for i := range old {
+			j := joinAV(old[i], cur[i])
+			if !j.eq(old[i]) {
+				old[i] = j
+				t.changed = true
 			}
 		}
 	}
+	mergePost(t.paramPost, a.post)
+	mergePost(t.paramPostOK, a.postOK)
 }
 
 func predIndex(b, pred *ssa.BasicBlock) int {
@@ -1178,7 +1186,14 @@ func (a *fnAn) symOf(v ssa.Value) (Sym, bool) {
 			return Sym{'v', k, 0, false}, true
 		}
 	case *ssa.Convert:
-		return a.symConv(x.X, x.Type())
+		if s, ok := a.symConv(x.X, x.Type()); ok {
+			return s, true
+		}
+		// a wrapping conversion: the converted value is a symbol of its own (SSA values never change)
+		if isIntegerType(x.Type(), a.sizes) {
+			return Sym{'v', "v:" + x.Name(), 0, false}, true
+		}
+		return Sym{}, false
 	case *ssa.MultiConvert:
 		return a.symConv(x.X, x.Type())
 	case *ssa.ChangeType:
@@ -1345,12 +1360,22 @@ func (a *fnAn) refineErr(st tstate, c *ssa.BinOp, truth bool) {
 		st["N:"+e.Name()] = AV{NZ: true}
 		return
 	}
-	ex, ok := e.(*ssa.Extract)
-	if !ok {
+	// err == nil: what the callee guarantees about its integer arguments when it reports no error
+	// (err := checkLength(n); if err != nil { return })
+	var ex *ssa.Extract
+	var call *ssa.Call
+	switch x := e.(type) {
+	case *ssa.Call:
+		call = x
+	case *ssa.Extract:
+		ex = x
+		call, _ = x.Tuple.(*ssa.Call)
+	}
+	if call == nil {
 		return
 	}
-	call, ok := ex.Tuple.(*ssa.Call)
-	if !ok || call.Referrers() == nil {
+	a.applyPost(call, call.Common(), st, a.t.paramPostOK)
+	if ex == nil || call.Referrers() == nil {
 		return
 	}
 	hasOK := false
@@ -1693,9 +1718,16 @@ func (a *fnAn) instr(in ssa.Instruction, st tstate, collect bool) {
 			}
 		}
 	case *ssa.Return:
+		okExit := false
+		if n := len(x.Results); n > 0 && isErrorType(x.Results[n-1].Type()) {
+			okExit = !a.errNonNil(x.Results[n-1], st)
+		}
 		if len(a.fn.Params) > 0 {
 			if a.post == nil {
 				a.post = make([]AV, len(a.fn.Params))
+			}
+			if okExit && a.postOK == nil {
+				a.postOK = make([]AV, len(a.fn.Params))
 			}
 			for i, p := range a.fn.Params {
 				if !isIntegerType(p.Type(), a.sizes) {
@@ -1715,19 +1747,28 @@ func (a *fnAn) instr(in ssa.Instruction, st tstate, collect bool) {
 				} else {
 					a.post[i] = joinAV(a.post[i], av)
 				}
+				if okExit {
+					if a.nRetOK == 0 {
+						a.postOK[i] = av
+					} else {
+						a.postOK[i] = joinAV(a.postOK[i], av)
+					}
+				}
 			}
 			a.nRet++
+			if okExit {
+				a.nRetOK++
+			}
 		}
 		if len(x.Results) > 0 {
 			if a.retAV == nil {
 				a.retAV = make([]AV, len(x.Results))
 			}
-			okExit := false
-			if last := x.Results[len(x.Results)-1]; len(x.Results) > 1 && isErrorType(last.Type()) {
-				okExit = !a.errNonNil(last, st)
-				if okExit && a.retOK == nil {
-					a.retOK = make([]AV, len(x.Results))
-				}
+			if !(len(x.Results) > 1) {
+				okExit = false
+			}
+			if okExit && a.retOK == nil {
+				a.retOK = make([]AV, len(x.Results))
 			}
 			for i, r := range x.Results {
 				if !isIntegerType(r.Type(), a.sizes) {
@@ -1869,6 +1910,10 @@ func (a *fnAn) call(in ssa.Instruction, cc *ssa.CallCommon, st tstate, collect b
 // panics or loops otherwise: checkIndex(i)). Symbolic bounds over the callee's
 // pointer parameters are renamed to the caller's arguments.
 func (a *fnAn) applyParamPost(in ssa.Instruction, cc *ssa.CallCommon, st tstate) {
+	a.applyPost(in, cc, st, a.t.paramPost)
+}
+
+func (a *fnAn) applyPost(in ssa.Instruction, cc *ssa.CallCommon, st tstate, sums map[*ssa.Function][]AV) {
 	if _, isCall := in.(*ssa.Call); !isCall {
 		return
 	}
@@ -1877,7 +1922,7 @@ func (a *fnAn) applyParamPost(in ssa.Instruction, cc *ssa.CallCommon, st tstate)
 		return
 	}
 	g := core.Origin(sc)
-	post, ok := a.t.paramPost[g]
+	post, ok := sums[g]
 	if !ok || len(post) != len(cc.Args) || len(g.Params) != len(cc.Args) {
 		return
 	}
